@@ -132,6 +132,8 @@ func runC15(c *Ctx) {
 	checkStoreTree(c)
 	checkTreeModes(c)
 	checkRootDirs(c)
+	checkCommitIdentsClean(c)
+	checkEditorFileInStorage(c)
 	checkTreeNamesAndGitDir(c)
 }
 
@@ -840,80 +842,14 @@ func runC14(c *Ctx) {
 		c.Check(okPre && len(pre) == 2, "R14.1", "identity.Remove:prefixes", w.FnPos(ir), strings.Join(pre, " | "), "identity.Remove lists "+strings.Join(pre, " | ")+": expected the local ref and, per remote, the remote-tracking ref of the full id")
 	}
 
-	// R14.2
-	for _, m := range []string{"Remove", "RemoveAll"} {
-		fn := w.Method("cache", "SubCache", m)
-		if fn == nil {
-			c.Undecided("R14.2", "anchor:SubCache."+m, "cache", "not found")
-			continue
-		}
-		c.seeFn(funcName(fn))
-		need := map[string]func(ssa.Instruction) bool{
-			"entity-removal": func(i ssa.Instruction) bool {
-				ci, ok := i.(ssa.CallInstruction)
-				if !ok {
-					return false
-				}
-				n, _ := callName(ci.Common())
-				return n == "cache.Actions.Remove" || n == "cache.Actions.RemoveAll" || hasField(ci.Common().Value, "Remove") || hasField(ci.Common().Value, "RemoveAll")
-			},
-			"delete-cached":   deleteOf("cached"),
-			"delete-excerpts": deleteOf("excerpts"),
-			"lru-remove": func(i ssa.Instruction) bool {
-				ci, ok := i.(ssa.CallInstruction)
-				if !ok {
-					return false
-				}
-				n, _ := callName(ci.Common())
-				cl := &Call{Instr: ci}
-				return strings.HasSuffix(n, ".Remove") && cl.Recv() != nil && strings.Contains(valueKey(cl.Recv()), ".lru")
-			},
-			"index-removal": func(i ssa.Instruction) bool {
-				ci, ok := i.(ssa.CallInstruction)
-				if !ok {
-					return false
-				}
-				n, _ := callName(ci.Common())
-				return n == "repository.Index.Remove" || n == "repository.Index.Clear"
-			},
-			"write": func(i ssa.Instruction) bool {
-				ci, ok := i.(ssa.CallInstruction)
-				if !ok {
-					return false
-				}
-				n, _ := callName(ci.Common())
-				return n == "cache.SubCache.write"
-			},
-		}
-		var names []string
-		for k := range need {
-			names = append(names, k)
-		}
-		sort.Strings(names)
-		for _, k := range names {
-			c.Sites++
-			pred := need[k]
-			if k == "delete-cached" || k == "delete-excerpts" || k == "lru-remove" {
-				// inside loops for RemoveAll: existence on all paths is checked as "no success path avoids the loop header of a loop containing it"
-				found := false
-				for _, b := range fn.Blocks {
-					for _, ins := range b.Instrs {
-						if pred(ins) && unconditionalInLoop(w, ins) == "" {
-							found = true
-						}
-					}
-				}
-				if m == "RemoveAll" {
-					c.Check(found, "R14.2", "SubCache."+m+":"+k, w.FnPos(fn), "present and unconditional", "SubCache."+m+" does not perform "+k+" for every entity")
-					continue
-				}
-			}
-			bad, p, _ := pathSearch(fn, nil, nil, isSuccessReturn, pred, false)
-			c.Check(!bad, "R14.2", "SubCache."+m+":"+k, w.FnPos(fn), "on every success path", "SubCache."+m+" can succeed without "+k+": "+blocksString(w, p))
-		}
-	}
+	checkRemovalSteps(c)
 	checkForgetsAfterRemoval(c, "R14.2")
 	checkGetRemotesComplete(c)
+	checkIndexClearComplete(c)
+	// a removal whose last write was lost is repaired at the next start: any count mismatch rebuilds (shared with C11)
+	checkLoadHeuristic(c)
+	// "only it": the prefix given to Remove designates one entity or the removal is refused (shared with C13)
+	checkC13Scans(c)
 
 	// R14.3
 	rw := w.Func("commands", "runWipe")
@@ -2017,7 +1953,6 @@ func checkRootDirs(c *Ctx) {
 	}
 }
 
-
 // configRemovalUnskippable: in fn, the removal of the git-bug configuration section (cfg) may be skipped on the
 // way to a target only when the section has no keys (a len(ReadAll("git-bug")) test), or on an error exit.
 func configRemovalUnskippable(w *World, fn *ssa.Function, cfg *Call, targets []ssa.Instruction) (bool, string) {
@@ -2076,4 +2011,319 @@ func configRemovalUnskippable(w *World, fn *ssa.Function, cfg *Call, targets []s
 		}
 	}
 	return true, ""
+}
+
+// R14.7: clearing the search index clears all of it. SubCache.RemoveAll (wipe) and SubCache.Build rely on
+// Index.Clear to leave no document of a removed entity behind.
+func checkIndexClearComplete(c *Ctx) {
+	w := c.W
+	c.Doc("R14.7", "bleveIndex.Clear empties the index whatever its size: it closes the index, removes its directory and creates a new one, each step on the success edge of the previous one; a Clear written as search-and-delete must size the search by the document count (bleve answers 10 hits by default)")
+	fn := w.Method("repository", "bleveIndex", "Clear")
+	if fn == nil {
+		c.Undecided("R14.7", "anchor:bleveIndex.Clear", "repository", "not found")
+		return
+	}
+	c.seeFn(funcName(fn))
+	pos := w.FnPos(fn)
+	var closeC, rm, mk, search *Call
+	for _, cl := range Calls(fn) {
+		c.Sites++
+		switch {
+		case strings.HasSuffix(cl.Name, "bleve.Index.Close") || strings.HasSuffix(cl.Name, "Index.Close"):
+			closeC = cl
+		case cl.Name == "os.RemoveAll":
+			rm = cl
+		case cl.Name == "repository.bleveIndex.makeIndex":
+			mk = cl
+		case strings.HasSuffix(cl.Name, "Index.Search") || strings.HasSuffix(cl.Name, "Index.SearchInContext"):
+			search = cl
+		}
+	}
+	switch {
+	case closeC != nil && rm != nil && mk != nil:
+		okPath := hasField(rm.Args()[0], "path")
+		ok := okPath && dominatedBySuccess(closeC.Value(), rm.Instr) && dominatedBySuccess(rm.Value(), mk.Instr)
+		okRet := false
+		for _, r := range Returns(fn) {
+			if returnsValue(r, mk.Value()) || dominatedBySuccess(mk.Value(), r) {
+				okRet = true
+			}
+			if len(r.Results) == 1 {
+				for _, o := range origins(ReturnResult(r, 0)) {
+					if o.Val == mk.Value() {
+						okRet = true
+					}
+				}
+			}
+		}
+		c.Check(ok && okRet, "R14.7", "bleveIndex.Clear:whole-index", pos, "close → remove the index directory → new index, each on success of the previous", "Clear does not remove the index directory (b.path) between closing the index and creating the new one, or reports success before the new index exists")
+	case search != nil:
+		sized := false
+		for _, b := range fn.Blocks {
+			for _, ins := range b.Instrs {
+				if st, ok := ins.(*ssa.Store); ok {
+					if fa, isFA := st.Addr.(*ssa.FieldAddr); isFA && fieldName(fa) == "Size" {
+						if hasOriginCall(st.Val, "github.com/blevesearch/bleve.Index.DocCount", -1) != nil || strings.Contains(originNames(st.Val), "DocCount") {
+							sized = true
+						}
+					}
+				}
+			}
+		}
+		if enclosingLoopHeader(search.Block()) != nil {
+			sized = true // repeated until nothing is left
+		}
+		c.Check(sized, "R14.7", "bleveIndex.Clear:whole-index", w.InstrPos(search.Instr), "the search is sized by the document count", "Clear deletes the hits of one search whose size is not the document count: bleve answers 10 hits by default, so an index with more documents keeps the others — removed entities stay searchable after wipe and survive a rebuild")
+	default:
+		c.Info("R14.7", "bleveIndex.Clear:whole-index", pos, "Clear is neither remove-and-recreate nor search-and-delete: not interpreted")
+	}
+}
+
+// checkRemovalSteps (R14.2): SubCache.Remove / RemoveAll perform every step of a removal on every success
+// path. Shared with C11: a step left out (the LRU entry, the excerpt) makes the cache disagree with a rebuild.
+func checkRemovalSteps(c *Ctx) {
+	w := c.W
+	c.Doc("R14.2", "SubCache.Remove/RemoveAll: entity removal, delete from cached/excerpts, lru.Remove, index removal, write() on every success path")
+	// R14.2
+	for _, m := range []string{"Remove", "RemoveAll"} {
+		fn := w.Method("cache", "SubCache", m)
+		if fn == nil {
+			c.Undecided("R14.2", "anchor:SubCache."+m, "cache", "not found")
+			continue
+		}
+		c.seeFn(funcName(fn))
+		need := map[string]func(ssa.Instruction) bool{
+			"entity-removal": func(i ssa.Instruction) bool {
+				ci, ok := i.(ssa.CallInstruction)
+				if !ok {
+					return false
+				}
+				n, _ := callName(ci.Common())
+				return n == "cache.Actions.Remove" || n == "cache.Actions.RemoveAll" || hasField(ci.Common().Value, "Remove") || hasField(ci.Common().Value, "RemoveAll")
+			},
+			"delete-cached":   deleteOf("cached"),
+			"delete-excerpts": deleteOf("excerpts"),
+			"lru-remove": func(i ssa.Instruction) bool {
+				ci, ok := i.(ssa.CallInstruction)
+				if !ok {
+					return false
+				}
+				n, _ := callName(ci.Common())
+				cl := &Call{Instr: ci}
+				return strings.HasSuffix(n, ".Remove") && cl.Recv() != nil && strings.Contains(valueKey(cl.Recv()), ".lru")
+			},
+			"index-removal": func(i ssa.Instruction) bool {
+				ci, ok := i.(ssa.CallInstruction)
+				if !ok {
+					return false
+				}
+				n, _ := callName(ci.Common())
+				return n == "repository.Index.Remove" || n == "repository.Index.Clear"
+			},
+			"write": func(i ssa.Instruction) bool {
+				ci, ok := i.(ssa.CallInstruction)
+				if !ok {
+					return false
+				}
+				n, _ := callName(ci.Common())
+				return n == "cache.SubCache.write"
+			},
+		}
+		var names []string
+		for k := range need {
+			names = append(names, k)
+		}
+		sort.Strings(names)
+		for _, k := range names {
+			c.Sites++
+			pred := need[k]
+			if k == "delete-cached" || k == "delete-excerpts" || k == "lru-remove" {
+				// inside loops for RemoveAll: existence on all paths is checked as "no success path avoids the loop header of a loop containing it"
+				found := false
+				for _, b := range fn.Blocks {
+					for _, ins := range b.Instrs {
+						if pred(ins) && unconditionalInLoop(w, ins) == "" {
+							found = true
+						}
+					}
+				}
+				if m == "RemoveAll" {
+					c.Check(found, "R14.2", "SubCache."+m+":"+k, w.FnPos(fn), "present and unconditional", "SubCache."+m+" does not perform "+k+" for every entity")
+					continue
+				}
+			}
+			bad, p, _ := pathSearch(fn, nil, nil, isSuccessReturn, pred, false)
+			c.Check(!bad, "R14.2", "SubCache."+m+":"+k, w.FnPos(fn), "on every success path", "SubCache."+m+" can succeed without "+k+": "+blocksString(w, p))
+		}
+	}
+}
+
+// R15.12: the author and committer lines of the commits git-bug writes are well formed whatever the host
+// repository's configuration says. go-git writes Name and Email verbatim; git refuses a commit whose ident
+// contains '<', '>' or a newline outside the delimiters.
+func checkCommitIdentsClean(c *Ctx) {
+	w := c.W
+	c.Doc("R15.12", "in package repository every value stored into the Name or Email of an object.Signature is a constant or the result of a function whose rune mapping, tabulated from its SSA, drops '<', '>', newline and NUL and keeps ordinary characters; a configuration value never reaches an ident verbatim")
+	n := 0
+	for _, f := range w.ModFns {
+		if fnPkgPath(f) != modPath+"/repository" || isInstance(f) || w.isTestHelper(f) {
+			continue
+		}
+		for _, b := range f.Blocks {
+			for _, ins := range b.Instrs {
+				st, ok := ins.(*ssa.Store)
+				if !ok {
+					continue
+				}
+				fa, ok := st.Addr.(*ssa.FieldAddr)
+				if !ok || (fieldName(fa) != "Name" && fieldName(fa) != "Email") || !strings.HasSuffix(typeShortName(fa.X.Type()), "object.Signature") {
+					continue
+				}
+				n++
+				c.Sites++
+				c.seeFn(funcName(f))
+				ok2, why := false, "the value is not a constant or the result of a cleaning function"
+				if _, isK := st.Val.(*ssa.Const); isK {
+					ok2 = true
+				}
+				if cv, isCall := st.Val.(*ssa.Call); isCall {
+					if callee := cv.Common().StaticCallee(); callee != nil && len(callee.Blocks) > 0 {
+						ok2, why = identCleaner(callee)
+					}
+				}
+				c.Check(ok2, "R15.12", fmt.Sprintf("%s:%s.%s", funcName(f), identRole(fa), fieldName(fa)), w.InstrPos(st), "cleaned before it is written into the ident",
+					"the "+fieldName(fa)+" of a commit ident is written without cleaning ("+why+"): with a configured name like \"Jane Doe <jane@example.com>\" every commit git-bug writes is refused by git fsck --strict and by servers that check received objects")
+			}
+		}
+	}
+	c.Check(n >= 4, "R15.12", "expected:ident-stores", "repository", fmt.Sprintf("%d ident fields written", n), fmt.Sprintf("only %d ident field stores found (reference 4)", n))
+}
+
+func identRole(fa *ssa.FieldAddr) string {
+	if fa2, ok := fa.X.(*ssa.FieldAddr); ok {
+		return fieldName(fa2)
+	}
+	return "ident"
+}
+
+// identCleaner: f returns strings.Map(p, <its argument>) where p, evaluated on its SSA, maps '<', '>',
+// '\n' and NUL to a negative value (dropped) and letters, digits, space, '@', '.', '-' to themselves.
+func identCleaner(f *ssa.Function) (bool, string) {
+	var pred *ssa.Function
+	for _, cl := range Calls(f) {
+		if cl.Name == "strings.Map" && len(cl.Args()) == 2 {
+			for _, g := range funcValuesOf(cl.Args()[0], 0) {
+				pred = g
+			}
+		}
+	}
+	if pred == nil {
+		return false, funcName(f) + " does not clean with strings.Map (not interpreted)"
+	}
+	eval := func(r rune) (int64, error) {
+		env := &fenv{concrete: true, cells: map[int]*fval{}}
+		rs, err := env.run(pred, []fval{{k: fInt, i: int64(r)}}, 0)
+		if err != nil || len(rs) != 1 {
+			return 0, fmt.Errorf("%v", err)
+		}
+		return rs[0].i, nil
+	}
+	for _, r := range []rune{'<', '>', '\n', 0} {
+		v, err := eval(r)
+		if err != nil {
+			return false, "the rune mapping of " + funcName(f) + " is not interpretable: " + err.Error()
+		}
+		if v >= 0 {
+			return false, fmt.Sprintf("%s keeps %q", funcName(f), r)
+		}
+	}
+	for _, r := range []rune{'a', 'Z', '0', ' ', '@', '.', '-', 'é', '日'} {
+		v, err := eval(r)
+		if err != nil || v != int64(r) {
+			return false, fmt.Sprintf("%s does not keep %q", funcName(f), r)
+		}
+	}
+	return true, ""
+}
+
+// R15.13: the scratch file of the editor lives in .git/git-bug. LaunchEditor receives a name relative to
+// the local storage; outside the storage interface that name is meaningless (it would resolve against the
+// current directory, i.e. the work tree), so it may only be used through the storage or joined to its root.
+func checkEditorFileInStorage(c *Ctx) {
+	w := c.W
+	c.Doc("R15.13", "in commands/input.LaunchEditor and LaunchEditorWithTemplate the relative file name parameter is used only as an argument of a local-storage operation (billy file system method, util.WriteFile on the storage) or of filepath.Join with the storage root as first element — never in a command line, a format string or an os call")
+	n := 0
+	for _, name := range []string{"LaunchEditor", "LaunchEditorWithTemplate"} {
+		fn := w.Func("commands/input", name)
+		if fn == nil {
+			c.Undecided("R15.13", "anchor:input."+name, "commands/input", "not found")
+			continue
+		}
+		c.seeFn(funcName(fn))
+		var param *ssa.Parameter
+		for _, p := range fn.Params {
+			if p.Name() == "fileName" || (isStringType(p.Type()) && param == nil) {
+				param = p
+			}
+		}
+		if param == nil {
+			c.Undecided("R15.13", "input."+name+":file-name-parameter", w.FnPos(fn), "no string parameter")
+			continue
+		}
+		bad := ""
+		var visit func(v ssa.Value, depth int)
+		seen := map[ssa.Value]bool{}
+		visit = func(v ssa.Value, depth int) {
+			if seen[v] || depth > 4 {
+				return
+			}
+			seen[v] = true
+			for _, r := range *v.Referrers() {
+				switch x := r.(type) {
+				case ssa.CallInstruction:
+					n++
+					c.Sites++
+					nm, _ := callName(x.Common())
+					okUse := false
+					switch {
+					case strings.Contains(nm, "billy.") || strings.Contains(nm, "go-billy"):
+						okUse = true
+					case nm == "util.WriteFile" || strings.HasSuffix(nm, "util.WriteFile"):
+						okUse = true
+					case nm == "commands/input.LaunchEditor" || nm == "commands/input.LaunchEditorWithTemplate":
+						okUse = true
+					case nm == "path/filepath.Join":
+						// first element is the storage root
+						for _, ev := range sliceElementValues(x.Common().Args[0]) {
+							if strings.Contains(originNames(ev), "Root") {
+								okUse = true
+							}
+							break
+						}
+					}
+					if !okUse {
+						bad = "it is handed to " + nm + " at " + w.InstrPos(x)
+					}
+				case *ssa.MakeInterface:
+					visit(x, depth+1)
+				case *ssa.Store:
+					// into the backing array of a variadic argument list: follow the slice to its call
+					if ia, isIA := x.Addr.(*ssa.IndexAddr); isIA {
+						if al, isAl := ia.X.(*ssa.Alloc); isAl {
+							for _, r2 := range *al.Referrers() {
+								if sl, isSl := r2.(*ssa.Slice); isSl {
+									visit(sl, depth+1)
+								}
+							}
+						}
+					}
+				case *ssa.Defer:
+				}
+			}
+		}
+		visit(param, 0)
+		c.Check(bad == "", "R15.13", "input."+name+":file-name-only-through-the-storage", w.FnPos(fn), "the relative name is used through the local storage or joined to its root",
+			"the file name relative to .git/git-bug is used outside the storage ("+bad+"): the editor (or the read) resolves it against the current directory and leaves the scratch file in the user's work tree")
+	}
+	c.Check(n >= 3, "R15.13", "expected:file-name-uses", "commands/input", fmt.Sprintf("%d uses of the file name examined", n), fmt.Sprintf("only %d uses of the file name found", n))
 }
